@@ -325,6 +325,14 @@ pub struct WarpTickPatchV1 {
     digest: ContentHash,
 }
 
+/// Verification seam (feature `echo_verif`, add-only): overwrite only the stored digest.
+#[cfg(feature = "echo_verif")]
+impl WarpTickPatchV1 {
+    pub(crate) fn echo_verif_set_digest(&mut self, digest: ContentHash) {
+        self.digest = digest;
+    }
+}
+
 impl WarpTickPatchV1 {
     /// Constructs a new patch and canonicalizes ordering.
     ///
